@@ -1031,6 +1031,17 @@ func (s *Server) handleDecline(req *dhcpv4.DHCPv4) {
 	// Mark IP as unavailable in pool
 	s.leasesMu.Lock()
 	lease, exists := s.leases[mac.String()]
+	if exists && lease != nil && !lease.IP.Equal(declinedIP) {
+		// A client may only decline the address it was given: otherwise one client could
+		// quarantine every address of the pool (or another subscriber's address)
+		s.leasesMu.Unlock()
+		s.logger.Warn("Ignoring DECLINE for an address not leased to this client",
+			zap.String("mac", mac.String()),
+			zap.String("declined", declinedIP.String()),
+			zap.String("leased", lease.IP.String()),
+		)
+		return
+	}
 	if exists {
 		delete(s.leases, mac.String())
 	}
